@@ -15,12 +15,12 @@ for f in subprocess.check_output(['git', '-C', wt, 'ls-files', '*zz_contracts*_v
     os.remove(os.path.join(wt, f))
 subprocess.check_call(['git', '-C', wt, '-c', 'user.email=a@b', '-c', 'user.name=a', 'commit', '-qam', 'scratch base'])
 mech = '; '.join(f"{m['name']} @ {m['where']}" for m in prop['anchors']['mechanism'])
-tmpl = open('/tmp/seedprompt_C19.md').read()
+tmpl = open('/verif/tools/seedprompt_template.md').read()
 # rebuild from the C19 template: replace the property block and the paths
 head, rest = tmpl.split('PROPERTY C19', 1)
 _, rest = rest.split('YOUR WORKTREE:', 1)
 body = f"PROPERTY {pid} — {prop['title']}\nStatement: {prop['statement']}\nQuantifier (what \"all\" ranges over): {prop['quantifier']['text']}\nWhere the mechanism lives: {mech}\n\nYOUR WORKTREE:" + rest
 txt = (head + body).replace('/tmp/seed_C19', wt).replace('"C19"', f'"{pid}"')
-txt = txt.replace('/tmp/run_baseline.sh', '/tmp/run_baseline.sh')
+txt = txt.replace('/verif/tools/run_baseline.sh', '/verif/tools/run_baseline.sh')
 open(f'/var/tmp/seedprompt_{pid}{suf}.md', 'w').write(txt)
 print(wt)
